@@ -4,7 +4,7 @@ name=$1; prop=$2; tier=${3:-quick}
 cd /verif
 git -C /repo status --porcelain | grep -q . && { echo "/repo not clean"; exit 2; }
 git -C /repo apply /verif/seeded/$name/patch.diff || exit 2
-python3 check.py $prop --tier $tier > /verif/.work/seedrun-$name-$prop-$tier.log 2>&1; rc=$?
+VERIF_EVIDENCE_DIR=/verif/.work/evidence-seed python3 check.py $prop --tier $tier > /verif/.work/seedrun-$name-$prop-$tier.log 2>&1; rc=$?
 git -C /repo checkout -- .
 echo "seed=$name property=$prop tier=$tier exit=$rc"
 grep "VIOLATION\|violating construct\|^OK\|ENGINE-ERROR" /verif/.work/seedrun-$name-$prop-$tier.log | cut -c1-300 | head -6
